@@ -160,14 +160,21 @@ fn bus_exec(out: &mut Out, ex: &[Value]) {
     let (s, pulls) = src(cfg);
     let bus = s.bus();
     let mut outs: Vec<Option<dasp_signal::bus::Output<Src>>> = Vec::with_capacity(ex.len());
+    let live0 = heap_now().0[3];
     let obs = |outs: &Vec<Option<dasp_signal::bus::Output<Src>>>, bus: &dasp_signal::bus::Bus<Src>| {
+        let live = heap_now().0[3] - live0; // heap footprint of the bus (and its outputs) since construction began
         let pend: Vec<Value> = outs.iter().enumerate()
             .filter_map(|(k, o)| o.as_ref().map(|o| json!([k, o.pending_frames(), o.is_exhausted()]))).collect();
-        json!({"ok": true, "pend": pend, "pulls": pulls.get(), "backlog": bus.verif_backlog_len()})
+        json!({"ok": true, "pend": pend, "pulls": pulls.get(), "backlog": bus.verif_backlog_len(), "live": live})
     };
     out.line(&json!({"ev":"reset","comp":"bus","cfg":cfg,"r":r_unit(),"o":obs(&outs, &bus)}));
     for op in &ex[1..] {
         let ev = op["ev"].as_str().unwrap();
+        if ev == "mark" {
+            // end of a lock-step round: observation only
+            out.ev(ev, op["a"].clone(), r_unit(), obs(&outs, &bus), [0, 0, 0]);
+            continue;
+        }
         let key = op["a"]["key"].as_u64().unwrap() as usize;
         let (r, h, _) = measured(|| {
             catch(|| match ev {
@@ -272,6 +279,19 @@ fn gen(seed: u64, size: &str, path: &str) {
                 ex.push(json!({"ev":"next","a":{"key":o}}));
                 t += 1;
             }
+        }
+        execs.push(ex);
+    }
+    // bus pulled in lock step (C07: bounded backlog, footprint stops growing after round 1)
+    for _ in 0..(if thorough { 24 } else { 6 }) {
+        let m = rng.range(1, 6) as usize;
+        let mut ex = vec![json!({"ev":"reset","comp":"bus","cfg":{"srclen":-1,"lockstep":true}})];
+        for k in 0..m { ex.push(json!({"ev":"send","a":{"key":k}})); }
+        for round in 1..=(if thorough { 300 } else { 60 }) {
+            let mut order: Vec<usize> = (0..m).collect();
+            for i in (1..m).rev() { let j = rng.below(i as u64 + 1) as usize; order.swap(i, j); }
+            for o in order { ex.push(json!({"ev":"next","a":{"key":o}})); }
+            ex.push(json!({"ev":"mark","a":{"round":round}}));
         }
         execs.push(ex);
     }
